@@ -49,6 +49,69 @@ theorem stepNext_last (pre post : List Row) (r : Row) (hr : rowSkip r = false)
   simp only [stepNextRev, hr, Bool.false_eq_true, if_false]
   split <;> simp_all
 
+/-! ### `has_steps`: the invocation directory is removed by `trap_exit` exactly
+    when resuming it would fail anyway -/
+
+theorem hasSteps_iff (rows : List Row) : hasSteps rows = true ↔ ∃ r ∈ rows, rowSkip r = false := by
+  induction rows with
+  | nil => simp [hasSteps]
+  | cons r rs ih =>
+    simp only [hasSteps]
+    by_cases h : rowSkip r = true
+    · simp only [h, if_true, ih, List.mem_cons, exists_eq_or_imp, Bool.true_eq_false, false_or]
+    · have h' : rowSkip r = false := by simpa using h
+      simp [h']
+
+theorem stepNextRev_isSome (rs : List Row) :
+    (stepNextRev rs).isSome = true ↔ ∃ r ∈ rs, rowSkip r = false := by
+  induction rs with
+  | nil => simp [stepNextRev]
+  | cons r rs ih =>
+    simp only [stepNextRev]
+    by_cases h : rowSkip r = true
+    · simp only [h, if_true, ih, List.mem_cons, exists_eq_or_imp, Bool.true_eq_false, false_or]
+    · have h' : rowSkip r = false := by simpa using h
+      simp only [h', Bool.false_eq_true, if_false, List.mem_cons, exists_eq_or_imp, true_or, iff_true]
+      split <;> rfl
+
+/-- **An interrupted invocation stays resumable**: the exit handler keeps the
+    directory (`has_steps`) if and only if `step_next` finds a resume point. -/
+theorem dir_kept_iff_resumable (rows : List Row) :
+    hasSteps rows = (stepNext rows).isSome := by
+  have a := hasSteps_iff rows
+  have b := stepNextRev_isSome rows.reverse
+  simp only [List.mem_reverse] at b
+  unfold stepNext
+  cases h1 : hasSteps rows <;> cases h2 : (stepNextRev rows.reverse).isSome
+  · rfl
+  · obtain ⟨r, hr, e⟩ := b.mp h2
+    have := a.mpr ⟨r, hr, e⟩
+    rw [h1] at this; cases this
+  · obtain ⟨r, hr, e⟩ := a.mp h1
+    have := b.mpr ⟨r, hr, e⟩
+    rw [h2] at this; cases this
+  · rfl
+
+/-- the report is only ever generated for a directory that is kept -/
+theorem report_implies_kept (rows : List Row) (own : Bool) (err : Int) :
+    (trapExitDecision rows own err).1 = true → (trapExitDecision rows own err).2 = true := by
+  simp only [trapExitDecision]
+  cases hasSteps rows <;> simp
+
+/-- a record of a started step (in flight, completed, failed) keeps the directory -/
+theorem started_step_keeps_dir (pre post : List Row) (r : Row) (hr : rowSkip r = false) :
+    hasSteps (pre ++ r :: post) = true :=
+  (hasSteps_iff _).mpr ⟨r, by simp, hr⟩
+
+/-- only skip records: the directory goes and resuming fails -/
+theorem only_skips_removed (rows : List Row) (h : ∀ r ∈ rows, rowSkip r = true) :
+    hasSteps rows = false ∧ stepNext rows = none := by
+  refine ⟨?_, stepNext_none rows h⟩
+  cases hs : hasSteps rows
+  · rfl
+  · obtain ⟨r, hr, e⟩ := (hasSteps_iff rows).mp hs
+    rw [h r hr] at e; cases e
+
 /-! ### Part 2: the orchestrator -/
 
 @[simp] theorem upd_same (f : File) (i : Nat) (v : Slot) : upd f i v i = v := by simp [upd]
@@ -590,6 +653,15 @@ theorem fresh_kill_points (c : Cfg) (exits : Nat → Int) (order : List Nat) (hn
     obtain ⟨q, g, ha⟩ := fresh_after_skips c order hn horder hend
     obtain ⟨q', g'⟩ := prefix_good c exits c.n _ 0 q g ha (by omega) t ht
     exact ⟨q', by simpa [applyWs, List.foldl_append] using g'⟩
+
+/-! ### non-vacuity of the `has_steps` statements -/
+private def rSkip : Row := (List.replicate 12 FVal.unknown).set skipIdx (.int 1)
+private def rRun : Row := ((List.replicate 12 FVal.unknown).set skipIdx (.int 0)).set exitIdx (.int (-1))
+example : hasSteps [rSkip, rSkip] = false ∧ stepNext [rSkip, rSkip] = none := by decide +kernel
+example : hasSteps [rSkip, rRun, rSkip] = true ∧ (stepNext [rSkip, rRun, rSkip]).isSome = true := by decide +kernel
+example : trapExitDecision [rSkip, rRun] true 1 = (true, true) ∧
+          trapExitDecision [rSkip, rRun] false 1 = (false, true) ∧
+          trapExitDecision [rSkip] true 1 = (false, false) := by decide +kernel
 
 /-! ### non-vacuity: a 4-step schedule with one skipped step, killed in flight -/
 private def c4 : Cfg := ⟨4, fun j => j == 1⟩
